@@ -24,3 +24,16 @@ package docker
 //@                          when len(a) == 2 && astype(a[0], string) == ips && astype(a[1], uint16) == r.DstPort && len(os) == 4 && os[1] == o1 && os[2] == o2 && os[3] == o3
 //@                            && e == nil && e2 == nil && ret1 == nil && isptr(ret0, ScanResult)
 //@                            && asptr(ret0, ScanResult).Host == host && asptr(ret0, ScanResult).Proto == s.proto && asptr(ret0, ScanResult).ScanType == "docker" -> exit
+
+// C02 / C10: private transport without proxy (see pkg/scan/elastic); defaults first, then the options in order
+//@ func WithDataTimeout$1
+//@   props C10
+//@   modifies s.dataTimeout
+//@   ensures s.dataTimeout == timeout
+//@ func NewScanner
+//@   props C02 C10
+//@   observe o
+//@   entry row init:  [] when s.proto == proto && s.client.Timeout == 0 && isptr(s.client.Transport, http.Transport) && fresh(asptr(s.client.Transport, http.Transport))
+//@                       && asptr(s.client.Transport, http.Transport).Proxy == nil && asptr(s.client.Transport, http.Transport).DialContext == nil && asptr(s.client.Transport, http.Transport).DisableKeepAlives -> loop 0
+//@   loop 0 row apply: [call o(s)] -> continue
+//@   loop 0 row done:  [] when ret == s -> exit
